@@ -258,6 +258,10 @@ def run(ctx):
               'no path leads from a failed try_pop to the return without polling again: the thread leaves only on the stop element',
               'the thread can return after try_pop reported an empty queue: while another producer holds a claimed but unpublished slot the pop fails although complete '
               'lines are queued behind it, so a line whose send() returned true before stop() is never written')
+    # ---------------- R28.9 the queue between enqueue and the logger thread neither refuses nor loses an element (C30's R30.6-R30.8 on the sub-queues it is built of)
+    from .c30 import subqueue_rules
+    subqueue_rules(ctx, prog, 'R28.9')
+    ctx.floor('R28.9', 3)
     ctx.floor('R28.8', 1)
     ctx.floor('R28.7', 1)
     ctx.floor('R28.6', 1)
